@@ -489,3 +489,108 @@ def build_c09(fault, pos, pre_want, multi, on_error='return', verbose=0, helper_
             'desc': {'fault': fault, 'pos': pos, 'pre_want': pre_want, 'multi': multi, 'verbose': verbose,
                      'helper_extra': helper_extra, 'own_want': own_want},
             'groups': groups}
+
+
+# ------------------------------------------------------------------ C09 / C03 / C02: random composites
+RANDOM_FAULTS = ['wrong-output', 'wrong-output', 'wrong-output-marker', 'wrong-value', 'exception', 'exception',
+                 'exception-nontb', 'exception-wrongtype', 'exception-wrongmsg', 'exception-ignorewant-inline',
+                 'called-exception', 'printraise', 'emptyraise', 'compile', 'badrepr', 'badrepr-stdout', 'tbwant-noraise']
+
+
+def c09_random(rng):
+    """a random program (every plain statement kind, both prompt styles, correct wants of every candidate form, prose
+    between parts, statements switched off by an inline SKIP) with ONE fault of a random kind at a random place, and
+    now and then a second fault further down (which must never be reached, let alone reported). Expectation by
+    construction: failed, the failure kind / exception type / failing line of the FIRST fault, exactly the statements
+    before it ran."""
+    npre = rng.randint(0, 6)
+    npost = rng.randint(0, 4)
+    n = npre + 1 + npost
+    fault = rng.choice(RANDOM_FAULTS)
+    groups = []
+    for k in range(n):
+        kind = rng.choice(gd.PLAIN_KINDS + ['comment'])
+        inline = ['+SKIP'] if (k != npre and kind not in ('comment', 'funcdef') and rng.random() < 0.12) else None
+        groups.append(gd.Group(kind, k, style=rng.choice(['new', 'new', 'old']), inline=inline))
+    j = npre
+    style = rng.choice(['new', 'new', 'old'])
+    kind = exc_type = None
+    at_want = False
+    if fault in ('wrong-output', 'wrong-output-marker'):
+        g = gd.Group('print', j, style=style)
+        g.want = 'not the output' if fault == 'wrong-output' else '<BLANKLINE>'
+        kind, exc_type, at_want = 'gotwant', 'GotWantException', True
+    elif fault == 'wrong-value':
+        g = gd.Group('expr', j, style=style)
+        g.want = 'zzz9'
+        kind, exc_type, at_want = 'gotwant', 'GotWantException', True
+    elif fault == 'tbwant-noraise':
+        g = gd.Group(rng.choice(['print', 'expr']), j, style=style)
+        g.want = exc_want(rng.choice(['exact', 'stack']), 'ValueError', 'm%d' % j)
+        kind, exc_type, at_want = 'gotwant', 'GotWantException', True
+    elif fault in ('exception', 'exception-nontb', 'exception-wrongtype', 'exception-wrongmsg', 'exception-ignorewant-inline',
+                   'called-exception', 'printraise', 'emptyraise'):
+        ek = {'called-exception': 'callraise', 'printraise': 'printraise', 'emptyraise': 'emptyraise'}.get(fault, 'raise')
+        g = gd.Group(ek, j, style=style, inline=['+IGNORE_WANT'] if fault == 'exception-ignorewant-inline' else None)
+        tname, msg = g.raises
+        kind, exc_type = 'exception', tname
+        if fault == 'exception-nontb':
+            g.want = exc_want(rng.choice(['nontb', 'nontb_dots', 'nontb_hdronly']), tname, msg)
+        elif fault == 'exception-ignorewant-inline':
+            g.want = 'some expected text'
+        elif fault == 'exception-wrongtype':
+            g.want = exc_want('wrongtype', tname, msg)
+            kind, exc_type, at_want = 'gotwant', 'GotWantException', True
+        elif fault == 'exception-wrongmsg':
+            g.want = exc_want('wrongmsg', tname, msg)
+            kind, exc_type, at_want = 'gotwant', 'GotWantException', True
+    elif fault == 'compile':
+        g = gd.Group('compileerr', j, style=style)
+        kind, exc_type = 'compile', 'SyntaxError'
+    elif fault == 'badrepr':
+        g = gd.Group('badrepr', j, style=style)
+        g.want = 'something'
+        kind, exc_type = 'repr', 'ExtractGotReprException'
+    elif fault == 'badrepr-stdout':
+        g = gd.Group('badreprprint', j, style=style)
+        g.want = 'something else'
+        kind, exc_type = 'repr', 'ExtractGotReprException'
+    groups[j] = g
+    second = None
+    if npost and rng.random() < 0.4:
+        j2 = rng.randrange(j + 1, n)
+        second = rng.choice(['wrong-output', 'exception', 'called-exception'])
+        if second == 'wrong-output':
+            g2 = gd.Group('print', j2)
+            g2.want = 'not the output either'
+        else:
+            g2 = gd.Group('raise' if second == 'exception' else 'callraise', j2)
+        groups[j2] = g2
+    # correct wants (any candidate form) on some of the statements before the fault; the statements after it carry
+    # wants too (never checked: the run stops at the fault), so that the parts split the same way
+    ref = gd.reference(groups)
+    since = 0
+    for i, x in enumerate(groups):
+        if i == j or x.want is not None or rng.random() < 0.5:
+            if i == j:
+                since = j + 1
+            continue
+        cands = correct_wants(groups, ref, i, since)
+        if not cands:
+            continue
+        x.want = rng.choice(cands)[1]
+        since = i + 1
+    ran = [x.k for x, r in zip(groups[:j], ref) if r['runs']]
+    expect = {'pfs': '010', 'kind': kind, 'exc_type': exc_type, 'render': True, 'fail_group': j,
+              'fail_first_line': None if at_want else g.lines[0]}
+    if kind != 'compile':
+        expect['T'] = ran + [j]
+    text = gd.render(groups, rng=rng, sep_prob=0.2)
+    tl = text.split('\n')
+    first_src = g.src_lines()[0]
+    idx = [i for i, l in enumerate(tl) if l == first_src]
+    if len(idx) == 1 and kind != 'compile':
+        expect['fail_lineno'] = 1 + idx[0] + (len(g.src_lines()) if at_want else 0)
+    return {'text': text, 'run': {'on_error': rng.choice(['return', 'return', 'raise']), 'verbose': rng.choice([0, 0, 0, 1, 2, 3])},
+            'expect': expect, 'desc': {'family': 'c09_random', 'fault': fault, 'npre': npre, 'npost': npost, 'second': second},
+            'groups': groups}
